@@ -14,17 +14,23 @@ from __future__ import annotations
 import numpy as np
 
 from pv import core
+from pv.gen import c09_axes as AX
 from pv.ref import c09_oracle as O
 
 GEOM_ATTRS = ['fix', 'linear_growth', 'sma', 'x0', 'y0', 'eps', 'pa', 'astep']
 
 
-def _galaxy(rng):
+def _galaxy(case):
+    rng = case.rng
     n = int(rng.integers(45, 66))
-    x0, y0 = n / 2 + rng.uniform(-2, 2), n / 2 + rng.uniform(-2, 2)
+    ny, nx = (n, n) if rng.random() < 0.6 else (n, n + int(rng.integers(8, 30)))
+    if rng.random() < 0.5:
+        ny, nx = nx, ny
+    case.note('axis:shape_ellipse:' + ('square' if ny == nx else 'nonsquare'))
+    x0, y0 = nx / 2 + rng.uniform(-2, 2), ny / 2 + rng.uniform(-2, 2)
     eps, pa = float(rng.uniform(0.1, 0.5)), float(rng.uniform(0, np.pi))
     r0, i0 = float(rng.uniform(4, 8)), float(rng.uniform(500, 5000))
-    yy, xx = np.mgrid[0:n, 0:n]
+    yy, xx = np.mgrid[0:ny, 0:nx]
     dx, dy = xx - x0, yy - y0
     xr = dx * np.cos(pa) + dy * np.sin(pa)
     yr = -dx * np.sin(pa) + dy * np.cos(pa)
@@ -34,7 +40,12 @@ def _galaxy(rng):
     guess = dict(x0=float(x0 + rng.uniform(-0.8, 0.8)), y0=float(y0 + rng.uniform(-0.8, 0.8)),
                  sma=float(rng.uniform(5, 9)), eps=float(np.clip(eps + rng.uniform(-0.1, 0.1), 0.05, 0.7)),
                  pa=float((pa + rng.uniform(-0.3, 0.3)) % np.pi))
-    return img, guess, dict(n=n, eps=round(eps, 3), pa=round(pa, 3), r0=round(r0, 2))
+    mag = AX.scale(case, 'magnitude_ellipse')
+    img = img * mag
+    if rng.random() < 0.04:
+        img = np.full(img.shape, 5.0 * mag)            # degenerate: constant image, no gradient
+        case.note('axis:degenerate_ellipse:constant_image')
+    return img, guess, dict(shape=[ny, nx], magnitude=mag, eps=round(eps, 3), pa=round(pa, 3), r0=round(r0, 2))
 
 
 def _gen_call(rng):
@@ -86,16 +97,29 @@ def _geom(g):
 
 def run(case):
     rng = case.rng
-    img, guess, gdesc = _galaxy(rng)
+    img, guess, gdesc = _galaxy(case)
+    lay = AX.layout(case, 'layout_ellipse')
+    container = ['ndarray', 'ndarray', 'masked_array', 'float32'][int(rng.integers(0, 4))]
+    case.note('axis:container_ellipse:' + container)
+
+    def image():
+        a = lay(img)
+        if container == 'masked_array':
+            m = np.zeros(a.shape, bool)
+            m[0, :3] = True
+            return np.ma.MaskedArray(a, mask=m)
+        if container == 'float32':
+            return a.astype(np.float32)
+        return a
     threshold = float(rng.choice([0.1, 0.1, 0.05]))
     with_geom = rng.random() < 0.85
 
     def make():
         from photutils.isophote import Ellipse, EllipseGeometry
         if not with_geom:
-            return Ellipse(img.copy(), threshold=threshold), None
+            return Ellipse(image(), threshold=threshold), None
         g = EllipseGeometry(guess['x0'], guess['y0'], guess['sma'], guess['eps'], guess['pa'])
-        return Ellipse(img.copy(), g, threshold=threshold), g
+        return Ellipse(image(), g, threshold=threshold), g
 
     ncalls = int(rng.integers(2, 6)) if case.tier == 'thorough' else int(rng.integers(2, 4))
     calls = [_gen_call(rng) for _ in range(ncalls)]
